@@ -18,6 +18,7 @@ CONSTANTS Loc,       \* Loc[a] : sequence of host addresses of agent a
           Renom, MaxRenom, \* renomination enabled (controlling side issues valued nominations), budget
           MaxData,     \* budget of application-data operations (writes and injected data datagrams)
           Lite,        \* Lite[a] : a is an ICE-lite agent
+          Miss,        \* near-miss generation: names of guards switched OFF in this configuration ({} = the faithful model)
           CheckPrio    \* CheckPrio[a] : lite agent a still applies the priority rule to plain USE-CANDIDATE
 Agents == {"A","B"}
 Other(a) == IF a = "A" THEN "B" ELSE "A"
@@ -84,7 +85,7 @@ Nominatable(a, p) == now - selStart[a] >= Acc["host"] /\ now - selStart[a] >= Ac
 RECURSIVE AddRemotePairs(_, _, _, _, _, _)
 AddRemotePairs(ps, id, ls, k, c, ctl) ==   \* pair a new remote c with every local (findPair guard)
   IF k > Len(ls) THEN [ps |-> ps, id |-> id]
-  ELSE IF PairIdx(ps, ls[k], c.addr) # 0 THEN AddRemotePairs(ps, id, ls, k + 1, c, ctl)
+  ELSE IF PairIdx(ps, ls[k], c.addr) # 0 /\ "findpair" \notin Miss THEN AddRemotePairs(ps, id, ls, k + 1, c, ctl)
        ELSE AddRemotePairs(Append(ps, NewPair(id + 1, ls[k], c.addr, c.prio, ctl)), id + 1, ls, k + 1, c, ctl)
 RECURSIVE AddAllRemotes(_, _, _, _, _, _)
 AddAllRemotes(ps, id, ls, cs, k, ctl) ==
@@ -207,7 +208,8 @@ HandleReq(b, lc, m) ==
               accept == nominates /\ (m.nom = 0 \/ lastNom[b] = 0 \/ m.nom > lastNom[b])   \* shouldAcceptNomination
               rejected == nominates /\ ~accept
               st1 == IF Lite[b] /\ accept THEN "S" ELSE p.st    \* a lite agent puts an accepted nomination straight into the valid list
-              doSel == accept /\ st1 = "S" /\ (cur = 0 \/ (cur # k /\ (m.nom # 0 \/ ~NeedPrio(b) \/ ps[cur].prio < p.prio)))
+              doSel == accept /\ (st1 = "S" \/ "selvalid" \in Miss)
+                       /\ (cur = 0 \/ (cur # k /\ (m.nom # 0 \/ ~NeedPrio(b) \/ ps[cur].prio < p.prio \/ "prioless" \in Miss)))
               defer == accept /\ st1 # "S"      \* the nomination value is NOT remembered with the pair (F-C20a)
               ps0 == [ps EXCEPT ![k].st = st1]
               ps1 == IF doSel THEN SelectPair(b, ps0, k) ELSE IF defer THEN [ps0 EXCEPT ![k].nos = TRUE] ELSE ps0
@@ -229,17 +231,17 @@ HandleSucc(b, lc, m) ==
   /\ IF T = {} THEN net' = net (-) One(m) /\ pend' = [pend EXCEPT ![b] = live] /\ UNCHANGED <<pairs, sel, conn, answered>>
      ELSE LET x == CHOOSE y \in T : TRUE IN
        /\ pend' = [pend EXCEPT ![b] = live \ {x}] /\ net' = net (-) One(m)
-       /\ IF x.dst # m.src THEN UNCHANGED <<pairs, sel, conn, answered>>
+       /\ IF x.dst # m.src /\ "respdst" \notin Miss THEN UNCHANGED <<pairs, sel, conn, answered>>
           ELSE LET ps == pairs[b]  k == PairIdx(ps, lc, m.src) IN
                IF k = 0 THEN UNCHANGED <<pairs, sel, conn, answered>>
                ELSE LET p == ps[k]
                         cur == IF sel[b] = 0 THEN 0 ELSE PairById(ps, sel[b])
-                        doSel == IF role[b] = "controlling" THEN x.uc /\ (x.nom # 0 \/ sel[b] = 0)
+                        doSel == IF role[b] = "controlling" THEN (x.uc \/ "ctlsel_uc" \in Miss) /\ (x.nom # 0 \/ sel[b] = 0)
                                  ELSE p.nos /\ (cur = 0 \/ (cur # k /\ (~NeedPrio(b) \/ ps[cur].prio <= p.prio)))
                     IN /\ pairs' = [pairs EXCEPT ![b][k].st = "S", ![b][k].nom = (p.nom \/ doSel)]
                        /\ sel' = [sel EXCEPT ![b] = IF doSel THEN p.id ELSE @]
                        /\ conn' = [conn EXCEPT ![b] = IF doSel THEN "Connected" ELSE @]
-                       /\ answered' = [answered EXCEPT ![b] = @ \cup {<<gen[b], p.id>>}]
+                       /\ answered' = [answered EXCEPT ![b] = IF x.dst = m.src THEN @ \cup {<<gen[b], p.id, FALSE>>} \cup (IF x.uc THEN {<<gen[b], p.id, TRUE>>} ELSE {}) ELSE @]
 
 \* authentication predicates of the receiver
 ReqAuthOK(b, m) == m.user = <<gen[b], rgen[b]>> /\ m.key = <<b, gen[b]>>
@@ -275,7 +277,7 @@ Dup(m) == BagIn(m, net) /\ m.copy = 0 /\ dup < MaxDup /\ net' = net (+) One([m E
 \* ---------- attacker: puts an arbitrary datagram on the wire towards one of b's sockets
 Forged(b) ==
   LET l == Loc[b][1]  peer == Other(b)
-      srcs == {NatMap[Loc[peer][1]], "x9"}
+      srcs == {NatMap[Loc[peer][k]] : k \in 1..Len(Loc[peer])} \cup {"x9"}
       tids == {0} \cup {x.tid : x \in pend[b]}
   IN {[from |-> "X", kind |-> k, src |-> s, dst |-> NatMap[l], tid |-> t, uc |-> u, rolea |-> ra,
        user |-> us, key |-> ky, prio |-> HostPrio, tbc |-> 1, copy |-> 0, nom |-> 0] :
@@ -317,7 +319,9 @@ AddRemote(a, c) ==
      IF k # 0 /\ rs[k].typ = c.typ THEN UNCHANGED <<remotes, pairs, nextId, conn>>
      ELSE IF k # 0 /\ rs[k].typ = "prflx" THEN   \* supersession keeps pairs (ids, states, priority override)
           /\ remotes' = [remotes EXCEPT ![a] = Append(SubSeq(rs, 1, k - 1) \o SubSeq(rs, k + 1, Len(rs)), c)]
-          /\ UNCHANGED <<pairs, nextId>>
+          \* the pairs of the superseded candidate now belong to c; pairing c with every local finds them (findPair guard)
+          /\ LET r == AddRemotePairs(pairs[a], nextId[a], locals[a], 1, c, role[a] = "controlling") IN
+               pairs' = [pairs EXCEPT ![a] = r.ps] /\ nextId' = [nextId EXCEPT ![a] = r.id]
           \* replaceRemoteInPairs re-announces a selected pair through setSelectedPair, which reports Connected unconditionally
           /\ conn' = [conn EXCEPT ![a] = IF sel[a] # 0 /\ pairs[a][PairById(pairs[a], sel[a])].r = c.addr THEN "Connected" ELSE @]
      ELSE LET r == AddRemotePairs(pairs[a], nextId[a], locals[a], 1, c, role[a] = "controlling") IN
@@ -379,7 +383,19 @@ Next == (CoreNext /\ DataIdle) \/ DataNext
 Spec == Init /\ [][Next]_vars
 
 \* ---------- properties (C03, C01, C05, C06 fragments)
-SelValidated == \A a \in Agents : sel[a] # 0 => <<gen[a], sel[a]>> \in answered[a]
+SelValidated == \A a \in Agents : (sel[a] # 0 /\ ~Lite[a]) =>
+                   /\ <<gen[a], sel[a], FALSE>> \in answered[a]
+                   /\ (role[a] = "controlling" => <<gen[a], sel[a], TRUE>> \in answered[a])
+\* a pair is Succeeded only through an answered check of its own (lite agents excepted)
+SuccValidated == \A a \in Agents : ~Lite[a] => \A k \in 1..Len(pairs[a]) : pairs[a][k].st = "S" => <<gen[a], pairs[a][k].id, FALSE>> \in answered[a]
+\* plain USE-CANDIDATE never leaves a priority-checking controlled agent on a pair while a listed pair of higher priority
+\* was the selection before (model-level form used for near-miss generation: the selected pair of a controlled agent
+\* that never saw a nomination value has the highest priority among the pairs it ever selected -- approximated by:
+\* no validated, nominated pair has a higher priority than the selected one)
+NoDowngradeInv == \A a \in Agents : (role[a] = "controlled" /\ sel[a] # 0 /\ lastNom[a] = 0 /\ NeedPrio(a)) =>
+                    \A k \in 1..Len(pairs[a]) : (pairs[a][k].nom /\ pairs[a][k].st = "S") =>
+                        pairs[a][k].prio <= pairs[a][PairById(pairs[a], sel[a])].prio
+
 SelListed == \A a \in Agents : sel[a] # 0 => PairById(pairs[a], sel[a]) # 0
 UniqueIds == \A a \in Agents : \A i, j \in 1..Len(pairs[a]) : i # j => pairs[a][i].id # pairs[a][j].id
 NoDupPairs == \A a \in Agents : \A i, j \in 1..Len(pairs[a]) : i # j => <<pairs[a][i].l, pairs[a][i].r>> # <<pairs[a][j].l, pairs[a][j].r>>
